@@ -144,19 +144,19 @@ def rest_ops(s):
     if t == 'workbook':
         items('/v2/workbooks', by=('name',))
         lists('/v2/workbooks')
-        op('PUT', '/v2/workbooks', 'yaml',
+        op('PUT', '/v2/workbooks?skip_validation=1', 'yaml', route='/v2/workbooks',
            body=W.WB_YAML % (NAME, 'CHANGED', 'chg'), ctype='text/plain')
-        op('POST', '/v2/workbooks', 'same-name',
+        op('POST', '/v2/workbooks?skip_validation=1', 'same-name', route='/v2/workbooks',
            body=W.WB_YAML % (NAME, 'NEW', 'new'), ctype='text/plain')
     elif t == 'workflow':
         items('/v2/workflows')
         lists('/v2/workflows')
-        op('PUT', '/v2/workflows', 'yaml', body=W.WF_YAML % (NAME, 'CHANGED'),
+        op('PUT', '/v2/workflows?skip_validation=1', 'yaml', route='/v2/workflows', body=W.WF_YAML % (NAME, 'CHANGED'),
            ctype='text/plain')
-        op('PUT', '/v2/workflows/' + rid, 'yaml',
+        op('PUT', '/v2/workflows/' + rid + '?skip_validation=1', 'yaml',
            body=W.WF_YAML % (NAME, 'CHANGED'), ctype='text/plain',
            route='/v2/workflows/<id>')
-        op('POST', '/v2/workflows', 'same-name',
+        op('POST', '/v2/workflows?skip_validation=1', 'same-name', route='/v2/workflows',
            body=W.WF_YAML % (NAME, 'NEW'), ctype='text/plain')
         op('POST', '/v2/executions', 'workflow_id=A',
            body={'workflow_id': rid}, route='/v2/executions')
@@ -310,6 +310,8 @@ def run_rest_op(s, op, who):
     h = headers(who)
     kw = {'headers': h, 'expect_errors': True}
     obs = {'exc': None, 'ids': [], 'any': False}
+    calls = set()
+    W.TRACE['on'] = calls
     try:
         if op.method == 'GET':
             r = a.get(op.path, **kw)
@@ -330,7 +332,9 @@ def run_rest_op(s, op, who):
         obs['err'] = '%s: %s' % (type(e).__name__, str(e)[:300])
         text = ''
     finally:
+        W.TRACE['on'] = None
         auth_context.set_ctx(None)
+    obs['db_calls'] = sorted(calls)
     ok = 200 <= obs['status'] < 300
     if not ok:
         obs['exc'] = 'HTTP%d' % obs['status']
@@ -357,6 +361,7 @@ def run_rest_op(s, op, who):
                  required=required, mode=op.mode, returned_anything=ok)
     obs['post_hash'] = M.state_hash(post)
     obs['changed'] = post != pre
+    obs['req_ids'] = [i for _, i in (required or [])]
     obs['rpc'] = list(RPC_LOG)
     obs['expect_visible'] = bool(required) and any(
         M.must_see(pre, t, pre[t][i], caller) for t, i in required)
